@@ -984,6 +984,17 @@ __CPROVER_assigns(g_push, g_push_len, g_push_idx, g_dist_i, g_dist_j, g_eidx_i, 
     U.append(Unit("rips_filtration.get_edges.dense", "C11", [fn], enforce="edge_dense", globals_=G, inputs=["in_i", "in_j", "g_dist_ij", "threshold"], replay=replay_by_native_search,
                   harness=H("  int in_i = nondet_int(), in_j = nondet_int(); g_dist_ij = nondet_float(); threshold = nondet_float(); g_push = 0;", "edge_dense(in_i, in_j);"),
                   desc="get_edges, dense matrices, one pair (i, j): the pair is an edge of the filtration exactly when its length is <= threshold (the filtration is truncated AT the threshold), with that length and the index of {i, j}"))
+    fn2 = Fn(RP, r"std::vector<diameter_simplex_t> get_edges\(\)", "edge_sparse", """
+__CPROVER_requires(g_push == 0 && !isnan(g_nb_d))
+__CPROVER_ensures(g_push == (i > g_nb_v ? 1 : 0))
+__CPROVER_ensures(g_push == 0 || (g_push_len == g_nb_d && g_push_idx == g_eidx && g_eidx_i == i && g_eidx_j == g_nb_v))
+__CPROVER_assigns(g_push, g_push_len, g_push_idx, g_eidx_i, g_eidx_j)
+""", piece={"kind": "loop", "ordinal": 3, "sig": "void edge_sparse(vertex_t i)"},
+             subs=[(r"get_vertex\(n\)", "g_nb_v"), (r"get_diameter\(n\)", "g_nb_d"), (r"edges\.push_back\(\{([^,]*), ([^;]*)\}\);", r"edges_push(\1, \2);")],
+             canary=(r"if \(i > j\)", "if (i >= j)"))
+    U.append(Unit("rips_filtration.get_edges.sparse", "C11", [fn2], enforce="edge_sparse", globals_=G + "vertex_t g_nb_v; value_t g_nb_d;\n", inputs=["in_i", "g_nb_v", "g_nb_d"], replay=replay_by_native_search,
+                  harness=H("  int in_i = nondet_int(); g_nb_v = nondet_int(); g_nb_d = nondet_float(); g_push = 0;", "edge_sparse(in_i);"),
+                  desc="get_edges, sparse matrices, one stored neighbour (v, d) of i: it becomes an edge exactly when v < i (each undirected edge once, from its larger end), with its stored length and the index of {i, v}"))
 
 def enumerator_units(U):
     """dense Simplex_coboundary_enumerator_::next(): filters the raw cofacets by the threshold.  next_raw (the
